@@ -204,8 +204,10 @@ where
 /// The prover's side (prover/src/constraints/evaluator): DefaultConstraintEvaluator over the scenario's
 /// trace with an Air whose transition constraints are identically zero, so that the composition trace
 /// is the sum of the boundary groups: value at ce step i = SUM_a cc_a (T_col(x_i) - b_a(x_i)) / Z_a(x_i).
-/// Returns the values at the scenario's coset steps.
-fn composition<B, E>(sc: &Value, cc: &[E]) -> Vec<E>
+/// `blowup` is the option (LDE) blowup; the constraint evaluation blowup is 2 (declared degrees 1), so the
+/// constraint evaluation domain and the expected values are the same for every `blowup`.
+/// Returns the values at the scenario's coset steps (steps of the constraint evaluation domain).
+fn composition<B, E>(sc: &Value, cc: &[E], blowup: usize) -> Vec<E>
 where
     B: StarkField + Elem + ExtensibleField<2> + ExtensibleField<3>,
     E: FieldElement<BaseField = B> + Elem,
@@ -215,7 +217,7 @@ where
     let mrows = sc["main"].as_array().unwrap();
     let arows = sc["aux"].as_array().unwrap();
     let one = [Deg { base: 1, cycles: vec![] }];
-    let ctx = context::<B>(len, mw, aw, &one, if aw > 0 { &one } else { &[] }, mrows.len(), arows.len(), 2);
+    let ctx = context::<B>(len, mw, aw, &one, if aw > 0 { &one } else { &[] }, mrows.len(), arows.len(), blowup);
     let main: Vec<Assertion<B>> = mrows.iter().map(mk::<B>).collect();
     let aux: Vec<AuxAssertion<B>> = arows
         .iter()
@@ -318,15 +320,17 @@ where
     }
     // the prover's evaluator (its degree validation of the all-zero transition constraints is a
     // debug assertion: release builds only)
-    let mut comp = json!([]);
+    let mut comp = vec![];
     if !cfg!(debug_assertions) && complete {
-        rep.calls += 1;
-        match catch(|| composition::<B, E>(sc, &cc)) {
-            Ok(v) => comp = json_of(&v),
-            Err(e) => {
-                complete = false;
-                rep.bad("DefaultConstraintEvaluator::evaluate", "panicked on a valid assertion set", json!({"panic": e}))
-            },
+        for blowup in usizes_of(&sc["blowups"]) {
+            rep.calls += 1;
+            match catch(|| composition::<B, E>(sc, &cc, blowup)) {
+                Ok(v) => comp.push(json_of(&v)),
+                Err(e) => {
+                    complete = false;
+                    rep.bad("DefaultConstraintEvaluator::evaluate", "panicked on a valid assertion set", json!({"panic": e, "lde_blowup": blowup}))
+                },
+            }
         }
     }
     json!({"complete": complete, "assign": assigns, "groups": groups, "comp": comp})
